@@ -8,6 +8,7 @@ import (
 	"go/constant"
 	"go/token"
 	"go/types"
+	"sort"
 	"strings"
 
 	"golang.org/x/tools/go/ssa"
@@ -557,6 +558,7 @@ func init() {
 			return
 		}
 		checkBudget(r, prog, a, "c11")
+		checkParseWrappersForward(r, prog, "c11")
 		r.importing = "C10"
 		checkCreateEvaluator(r, prog, a, nil, "c10") // every creation parses, once: acceptance is a function of (bytes, budget) only
 		checkRecoverDiscipline(r, prog, "c10")
@@ -631,4 +633,53 @@ func onlyEnteredFrom(prog *Program, fn *ssa.Function, allowed map[string]bool, d
 		}
 	}
 	return true
+}
+
+// checkParseWrappersForward: every exported entry point of package grammar that takes parser options and hands the
+// work to another entry point (ParseFile → ParseReader → Parse) hands its own options on, all of them, as they are: a
+// budget given to any entry point is the budget the parser runs with.
+func checkParseWrappersForward(r *Run, prog *Program, pfx string) {
+	n := 0
+	takesOpts := func(f *ssa.Function) int {
+		if f == nil || !f.Signature.Variadic() || len(f.Params) == 0 {
+			return -1
+		}
+		last := f.Params[len(f.Params)-1]
+		if sl, ok := last.Type().Underlying().(*types.Slice); ok && namedIs(sl.Elem(), grammarPath, "Option") {
+			return len(f.Params) - 1
+		}
+		return -1
+	}
+	var names []string
+	for name := range prog.GrammarSSA.Members {
+		names = append(names, name)
+	}
+	sort.Strings(names)
+	for _, name := range names {
+		fn, ok := prog.GrammarSSA.Members[name].(*ssa.Function)
+		if !ok || fn.Object() == nil || !fn.Object().Exported() || len(fn.Blocks) == 0 {
+			continue
+		}
+		oi := takesOpts(fn)
+		if oi < 0 {
+			continue
+		}
+		for _, b := range fn.Blocks {
+			for _, ins := range b.Instrs {
+				c, ok := ins.(*ssa.Call)
+				if !ok {
+					continue
+				}
+				callee := c.Call.StaticCallee()
+				ci := takesOpts(callee)
+				if ci < 0 || callee.Pkg != prog.GrammarSSA || callee == fn || callee.Object() == nil || !callee.Object().Exported() || ci >= len(c.Call.Args) {
+					continue
+				}
+				n++
+				r.Check(pfx+".transport", "wrapper:"+fn.Name()+"→"+callee.Name(), prog.pos(c.Pos()), c.Call.Args[ci] == ssa.Value(fn.Params[oi]),
+					fn.Name()+" does not hand its own options, unchanged, to "+callee.Name()+" ("+describeRoot(prog, c.Call.Args[ci])+"): an option given to this entry point — the budget — would not reach the parser")
+			}
+		}
+	}
+	r.Check(pfx+".transport", "wrapper:census", "grammar/grammar.go", n >= 1, fmt.Sprintf("info: %d forwarding entry points examined", n))
 }
